@@ -494,6 +494,34 @@ class FullLib(Lib):
             return VBool(False)
         raise Undecided(f"any({g})")
 
+    def c_sum(self, it, g):
+        """sum(1 for ch in <str> if ch.isdigit())  ->  ndigits(<str>)"""
+        if isinstance(g, VObj) and g.cls == "genexp":
+            node, env = g.f["node"], g.f["env"]
+            gen = node.generators[0]
+            src = it.eval(gen.iter, env)
+            if (len(node.generators) == 1 and isinstance(src, (VStr, VDyn)) and len(gen.ifs) == 1
+                    and _is_char_pred(gen.ifs[0], gen.target, "isdigit")
+                    and isinstance(node.elt, ast.Constant) and node.elt.value == 1):
+                return VInt(T.ndigits(self.need_str(it, src, "TypeError").term))
+        raise Undecided("sum() outside the character-count schema")
+
+    def c_all(self, it, g):
+        if isinstance(g, VObj) and g.cls == "genexp":
+            node, env = g.f["node"], g.f["env"]
+            gen = node.generators[0]
+            if len(node.generators) == 1 and not gen.ifs:
+                src = it.eval(gen.iter, env)
+                from .interp import Env
+                if isinstance(src, (VList, VTuple)):
+                    for x in self.iter_concrete(it, src):
+                        sub = Env(env)
+                        it.assign(gen.target, x, sub)
+                        if not it.ctx.branch(it.truth(it.eval(node.elt, sub))):
+                            return VBool(False)
+                    return VBool(True)
+        raise Undecided("all() over a symbolic iterable")
+
     def c_range(self, it, *a):
         vals = [z3.simplify(self.as_int(it, x).term) for x in a]
         if all(z3.is_int_value(v) for v in vals):
